@@ -196,7 +196,7 @@ Proof.
       - apply (IH _ _ _ (Hcs c (or_introl eq_refl)) Hc).
       - apply IHl. intros; apply Hcs; right; assumption. }
     destruct nd as [id|cs|cs].
-    + inversion H; subst. cbn. rewrite andb_true_r, orb_false_r. reflexivity.
+    + inversion H; subst. cbn. rewrite andb_true_r, orb_false_r. rewrite (s_node _ _ N). reflexivity.
     + destruct cs as [|c0 cs0]; [discriminate|]. set (cs := c0 :: cs0) in *.
       destruct (all_some (map (eb g f (anc ++ [Z.pos p])) cs)) as [ls|] eqn:Els; [|discriminate].
       inversion H; subst bs. rewrite existsb_map. cbn [conj_branch snd eval_node].
@@ -236,7 +236,7 @@ Proof.
       destruct ls as [|l r]. { apply all_some_Forall2 in Els. inversion Els. }
       apply product_cons_In in Hb. destruct Hb as (x & b' & -> & Hx & _).
       inversion CH as [|? ? Hl _]; subst. specialize (Hl x Hx).
-      cbn [conj_branch snd map concat]. destruct (snd x); [congruence|discriminate].
+      cbn [conj_branch snd map concat]. intros E. apply app_eq_nil in E. destruct E as [E _]. exact (Hl E).
     + destruct (all_some (map (eb g f (anc ++ [Z.pos p])) cs)) as [ls|] eqn:Els; [|discriminate].
       inversion H; subst bs. intros mb Hmb. apply in_concat in Hmb. destruct Hmb as (l & Hl & Hmb).
       specialize (CH cs ls eq_refl Els). rewrite Forall_forall in CH. exact (CH l Hl mb Hmb).
